@@ -1,5 +1,5 @@
 import Clikit.Model.Markup
-import Clikit.Lemmas.Style
+import Clikit.Lemmas.C11Style
 /-!
 The *specification* of SGR rendering used by `sgr_exact` (written down independently of pastel's
 tables: ECMA-48 / xterm numbering) and the lemmas that tie `convert` / `apply` to it.
